@@ -58,7 +58,7 @@ pub struct TableDump {
 	/// header stored in slot 0 of the file
 	pub file_filled: u64,
 	pub file_last_removed: u64,
-	/// first bytes (at most 64) of the slots 1..file_filled
+	/// content of the slots 1..file_filled
 	pub slots: Vec<Vec<u8>>,
 }
 
